@@ -557,8 +557,11 @@ class IntEval:
                 if isinstance(s.value, ast.Constant):
                     continue
                 if isinstance(s.value, ast.Call):
-                    if self.on_call is not None:
-                        self.on_call(s.value, self, st)
+                    r_ = self.on_call(s.value, self, st) if self.on_call is not None else NotImplemented
+                    fnm = norm(s.value.func)
+                    if r_ is NotImplemented and not (fnm in ("print", "warnings.warn") or fnm.rsplit(".", 1)[-1] in ("warn", "debug", "info", "warning", "set_description")):
+                        # a call made for its effect that the interpreter does not model: the state afterwards is unknown
+                        raise AnalysisError("IntEval: call statement %s" % norm(s.value)[:60])
                     continue
                 continue
             if isinstance(s, ast.Assign) and len(s.targets) == 1:
